@@ -225,6 +225,8 @@ def random_frames(rng, cell_budget):
         s = rng.choice((1, 2, 4, 8))
         sides = [d for d in (8, 16, 24, 32, 40, 48, 64) if d % s == 0]
         H, W = rng.choice(sides), rng.choice(sides)
+        if s > 1 and rng.random() < 0.3:         # sizes the stride does not divide: the grid is still 0, s, 2s, ... < size
+            H, W = rng.choice((H, 10, 11, 18, 27, 37)), rng.choice((W, 9, 13, 22, 30, 45))
         variant = rng.choice(("single", "multi", "multi", "centroid"))
         nodes = 1 if variant == "centroid" else rng.randint(1, 6)
         n_an = 1 if variant == "single" else rng.randint(1, 5)
@@ -278,6 +280,8 @@ def count_clauses(res, cases):
             res.clause("pipe_stream_position_%d" % c.get("spos", 0))
         res.clause("variant_" + c["variant"])
         res.clause("stride_%d" % c["s"])
+        if c["H"] % c["s"] or c["W"] % c["s"]:
+            res.clause("case_with_side_not_multiple_of_stride")
 
 
 def judge_round(res, name, inputs, note, stats):
@@ -354,7 +358,8 @@ def run(tier, seed):
         rule="exhaustive: one keypoint at every 1/4-px lattice point of [-2,6]^2 around a 4x4 image x strides {1,2,4} x sigma {1/2,1,3/2,5/2} x "
              "{single,multi,centroid} (set equality with the design model's space checked by TLC), all {visible, NaN, x-only-NaN}^4 patterns of 2 animals x 2 nodes; "
              "seeded random frames otherwise.  non-trivial = distinct (variant, size, stride, sigma, keypoints, num_instances) with at least one visible feeding keypoint.  "
-             "Excluded: image sides that are not multiples of the stride; sigma outside the four rationals; infinite coordinates.")
+             "Image sides that are not multiples of the stride are included in the random frames (grid 0, s, 2s, ... < size; floor or ceil cell count accepted).  "
+             "Excluded: sigma outside the four rationals; infinite coordinates.")
     res.assumptions += [
         "inputs lie on the 1/4-px lattice (exact in float32); value clause in the log domain: |round(-ln(v)*32 sigma^2 s^2) - D16| <= 1 + D16/10^4 for v >= 1e-30",
         "values < 1e-30 (float32 denormals) and exact zeros are accepted only where D16 > 60 * 32 sigma^2 s^2 (v < e^-60)",
